@@ -318,6 +318,58 @@ class Program:
             for q, c in m.classes.items():
                 yield m, q, c
 
+    def signatures(self):
+        """callable name -> positional parameter names (without self/cls), for names whose every definition in the package
+        agrees: module functions, classes (their __init__, through the package-local MRO), methods"""
+        sigs = {}
+
+        def add(name, params):
+            if name in sigs and sigs[name] != params:
+                sigs[name] = None
+            elif name not in sigs:
+                sigs[name] = params
+
+        for m in self.modules.values():
+            for q, f in m.functions.items():
+                a = f.args
+                if a.vararg or a.kwarg:
+                    add(q.split(".")[-1], None)
+                    continue
+                params = [x.arg for x in a.posonlyargs + a.args]
+                par = getattr(f, "_parent", None)
+                if isinstance(par, ast.ClassDef):
+                    static = any(isinstance(d, ast.Name) and d.id == "staticmethod" for d in f.decorator_list)
+                    if not static:
+                        params = params[1:]
+                    if f.name == "__init__":
+                        continue
+                add(f.name, tuple(params))
+            for q, c in m.classes.items():
+                init = None
+                try:
+                    for k in self.mro(c):
+                        for st in k.body:
+                            if isinstance(st, ast.FunctionDef) and st.name == "__init__":
+                                init = st
+                                break
+                        if init is not None:
+                            break
+                except Exception:
+                    init = None
+                if init is not None and not init.args.vararg and not init.args.kwarg:
+                    add(c.name, tuple(x.arg for x in (init.args.posonlyargs + init.args.args)[1:]))
+                elif init is None:
+                    # dataclass: field order
+                    is_dc = any((isinstance(d, ast.Name) and d.id == "dataclass") or (isinstance(d, ast.Call) and isinstance(d.func, ast.Name) and d.func.id == "dataclass")
+                                for d in c.decorator_list)
+                    if is_dc and not c.bases:
+                        add(c.name, tuple(st.target.id for st in c.body if isinstance(st, ast.AnnAssign) and isinstance(st.target, ast.Name)))
+                    else:
+                        add(c.name, None)
+                else:
+                    add(c.name, None)
+        return {k: v for k, v in sigs.items() if v is not None}
+
     def all_functions(self):
         for m in self.modules.values():
             for q, f in m.functions.items():
